@@ -193,6 +193,10 @@ func (g *Guarded) Count(ctx context.Context) int64 { zooHit(g.ID, "Count"); retu
 func (g *Guarded) Label(ctx context.Context) string { zooHit(g.ID, "Label"); return "guarded" }
 func (g *Guarded) Touch(ctx context.Context)        { zooHit(g.ID, "Touch") }
 
+// exported methods that take no context at all (an io.Closer, a reset): they are not functions a peer can name
+func (g *Guarded) Reset()       { zooHit(g.ID, "Reset") }
+func (g *Guarded) Close() error { zooHit(g.ID, "Close"); return nil }
+
 // Expected: path -> "instance.method/argc" (argc = parameters without the context)
 type ZooRoot struct {
 	Name     string
@@ -275,7 +279,7 @@ func ZooRoots() []ZooRoot {
 			"CallClosure": "shadow.CallClosure/2", "Get": "shadow.Get/0", "Sub.CallClosure": "shadow.sub.CallClosure/1"}},
 		{Name: "guarded-root", Value: &Guarded{ID: "guarded", audit: &auditImpl{ID: "audit", Journal: journal{ID: "journal"}}, Pub: &auditImpl{ID: "pubaudit", Journal: journal{ID: "pubjournal"}}},
 			Callable: map[string]string{"Status": "guarded.Status/0", "Pub.Note": "pubaudit.Note/0", "Count": "guarded.Count/0", "Label": "guarded.Label/0", "Touch": "guarded.Touch/0"},
-			Extra: []string{"audit.Note", "audit.Journal.Flush", "audit.Journal", "Pub.Journal.Flush", "Mutex.Lock", "Lock", "Unlock", "TryLock", "Mutex.Unlock",
+			Extra: []string{"Reset", "Close", "audit.Note", "audit.Journal.Flush", "audit.Journal", "Pub.Journal.Flush", "Mutex.Lock", "Lock", "Unlock", "TryLock", "Mutex.Unlock",
 				"audit.Journal.Flush.X", "Pub.Journal.ID"}},
 	}
 }
